@@ -139,4 +139,4 @@ def _show(interp):
 
 
 def parts(tier):
-    return [Part("evaluate", strategy=lambda t: case_strategy(t), check=check, quick=(8, 120), thorough=(16, 1500))]
+    return [Part("evaluate", strategy=lambda t: case_strategy(t), check=check, quick=(8, 200), thorough=(16, 1500))]
